@@ -98,6 +98,13 @@ def run(an: Analysis, rep):
     rep.run(c01.r01a, an, SharedRules(rep, "R05.N", "the decoder keeps the line of every code unit (shared with C01's R01.A): 'the same line for every instruction', 'traced line events'"), rule="R05.N")
     rep.run(c03.r035, an, SharedRules(rep, "R05.W", "operand width thresholds and unit emission (shared with C03's R03.5): normalize strips the recorded widths, so every operand is re-emitted at the width this function gives"))
     rep.run(c03.r038, an, SharedRules(rep, "R05.K", "lines keyed at the first code unit of an instruction (shared with C03's R03.8): 'the same line for every instruction' and the same traced line events"))
+    from . import c04, c06
+    sha = SharedRules(rep, "R05.A", "signature encoding: co_varnames layout, counts and flags (shared with C04's R04.3/R04.4): 'the same ... signature' - locals are numbered in co_varnames order, "
+                                    "so parameters listed in another order bind the wrong values")
+    rep.run(c04.r043, an, sha)
+    rep.run(c04.r044, an, sha)
+    rep.run(c06.reset_rules, an, SharedRules(rep, "R05.Z", "normalize strips every positional artefact together (shared with C06's R06.1/R06.2): an override kept on one kind of table entry while the list of "
+                                                           "unreferenced entries is dropped leaves a gap in that table, and normalize(x).to_code() raises instead of giving an equivalent code object"))
     rep.run(c03.r037, an, SharedRules(rep, "R05.R", "re-layout after normalization (shared with C03's R03.7): with the width overrides stripped, jumps still land on their targets"))
 
 
